@@ -114,8 +114,8 @@ static void big_case(uint64_t idx)
 {
     vh_rng r; const vh_cipher *c = &vh_ciphers[idx % CIPH_N];
     int be = (int)((idx / CIPH_N) % (uint64_t)(maxbe[c->id] + 1)), dec = (int)((idx / 9) & 1), inplace = (int)((idx / 18) & 1);
-    static const uint32_t NB[] = {4096, 4097, 8191, 65535, 65536, 65537, 70001, 131073};
-    uint32_t nb = NB[(idx / 36) % 8], b; size_t len = (size_t)nb * c->bb;
+    static const uint32_t NB[] = {4096, 4097, 8191, 65535, 65536, 65537, 70001, 131073, 262145, 524289, 1048577, 524296};
+    uint32_t nb = NB[(idx / 36) % 12], b; size_t len = (size_t)nb * c->bb;
     uint8_t key[48], *in = malloc(len), *out = malloc(len), *tw = malloc(len), *exp_ = malloc(len);
     unsigned klen, rounds = 5 + (unsigned)(idx % 4);
     vh_handle h; char pfx[160], d[300]; int ret;
